@@ -292,3 +292,17 @@ package parser
 //@   ensures[C05 statement-node] is(n, *FuncCallStmt)
 //@   ensures[C10 scope-restored] p.scope == old(p.scope)
 //@   modifies allbut parseFrame
+
+// ---- C04/C05: every argument of a step range must be num ----
+
+//@ func (p *parser) parseStepRange(nodes []Node, tok *lexer.Token) (r *StepRange)
+//@   props C04 C05
+//@   requires tok != nil && forall(i, int, 0 <= i && i < len(nodes) ==> nodes[i] != nil)
+//@   let k = ncalls("(Node).Type")
+//@   ensures[C04 C05 every-argument-is-num] r != nil ==> 1 <= len(nodes) && len(nodes) <= 3 && k == len(nodes) && forall(j, int, 1 <= j && j <= len(nodes) ==> callarg("(Node).Type", j, 0) == nodes[j-1] && callres("(Node).Type", j, 0).(*Type) == NUM_TYPE)
+//@   ensures[C05 rejected-means-reported] r == nil ==> ncalls("(*parser).appendErrorForToken") == 1 && callarg("(*parser).appendErrorForToken", 1, 2).(*lexer.Token) == tok
+//@   ensures[C05 accepted-means-silent] r != nil ==> ncalls("(*parser).appendErrorForToken") == 0
+//@   ensures[C10 start-stop-step] r != nil ==> fresh(r) && r.Stop == nodes[ite(len(nodes) == 1, 0, 1)] && (len(nodes) == 1 ==> r.Start == nil && r.Step == nil) && (len(nodes) >= 2 ==> r.Start == nodes[0]) && (len(nodes) == 3 ==> r.Step == nodes[2]) && (len(nodes) == 2 ==> r.Step == nil)
+//@   modifies p.errors, class elem:*parser.Error
+//@   loop 1 invariant -1 <= rangeindex && rangeindex < len(nodes) && len(nodes) <= 3 && ncalls("(Node).Type") == rangeindex + 1 && ncalls("(*parser).appendErrorForToken") == 0
+//@   loop 1 invariant forall(j, int, 1 <= j && j <= rangeindex + 1 ==> callarg("(Node).Type", j, 0) == nodes[j-1] && callres("(Node).Type", j, 0).(*Type) == NUM_TYPE)
